@@ -204,3 +204,11 @@ def chain_shapes(root, depth=4, trailing=True, leaf=None):
             node = Node(k, kids, names)
         out.append(node)
     return out
+
+
+def renamed(node, L=1):
+    """copy of the tree with every field name of length L (content symbolic): any ordering / duplicate is then possible"""
+    if node.kind not in ("O", "A"):
+        return Node(node.kind)
+    kids = [renamed(c, L) for c in node.children]
+    return Node(node.kind, kids, [L] * len(kids) if node.kind == "O" else [])
